@@ -407,12 +407,79 @@ def blist(bs):
     return "[" + ", ".join(str(b) for b in bs) + "]"
 
 
+HELPERS = {}      # name -> (return type, body text) of the parameterless members of Xml::Private (filled by run)
+
+
+def _byte_test(e):
+    """`P[k] == 'c'` / `*P == 'c'` / `*(P + k) == 'c'` (either order) with a side-effect free P and c != 0 -> (P, k, c)"""
+    if e[0] != "bin" or e[1] != "==":
+        return None
+    a, b = e[2], e[3]
+    if a[0] == "chr":
+        a, b = b, a
+    if b[0] != "chr" or b[1] == 0:
+        return None
+    if a[0] == "idx" and a[2][0] == "num":
+        P, k = a[1], a[2][1]
+    elif a[0] == "un" and a[1] == "*":
+        P, k = a[2], 0
+        if P[0] == "bin" and P[1] == "+" and P[3][0] == "num":
+            P, k = P[2], P[3][1]
+    else:
+        return None
+
+    def pure(x):
+        return x[0] == "id" or (x[0] == "mem" and pure(x[1]))
+    return (P, k, b[1]) if pure(P) else None
+
+
+def norm_lit(e):
+    """a `&&` chain that tests CONSECUTIVE bytes p[k], p[k+1], ... against non-NUL constants (each read only after the
+    one before matched) reads exactly what `String::compare(p + k, "...", n) == 0` reads: both become one `litat` node"""
+    if e[0] != "bin" or e[1] != "&&":
+        return e
+    conj = []
+
+    def flat(x):
+        if x[0] == "bin" and x[1] == "&&":
+            flat(x[2])
+            flat(x[3])
+        else:
+            conj.append(x)
+    flat(e)
+    out, i = [], 0
+    while i < len(conj):
+        t = _byte_test(conj[i])
+        j = i
+        if t:
+            run = [t]
+            while j + 1 < len(conj):
+                u = _byte_test(conj[j + 1])
+                if u and u[0] == t[0] and u[1] == run[-1][1] + 1:
+                    run.append(u)
+                    j += 1
+                else:
+                    break
+            if len(run) >= 2:
+                out.append(("litat", t[0], t[1], [r[2] for r in run]))
+                i = j + 1
+                continue
+        out.append(conj[i])
+        i += 1
+    if len(out) == len(conj):
+        return e
+    r = out[0]
+    for x in out[1:]:
+        r = ("bin", "&&", r, x)
+    return r
+
+
 class Env:
-    def __init__(self, vals, reads, consts):
-        self.v, self.reads, self.consts = vals, reads, consts
+    def __init__(self, vals, reads, consts, scope=0):
+        self.v, self.reads, self.consts, self.scope = vals, reads, consts, scope
 
     def copy(self):
-        return Env(dict(self.v), dict(self.reads), self.consts)
+        return Env(dict(self.v), dict(self.reads), self.consts, self.scope)
 
 
 class Compiler:
@@ -420,6 +487,8 @@ class Compiler:
         self.fn, self.n = fn, 0
         self.defs = []          # (name, params, text)
         self.loops = 0
+        self.scope = 0
+        self.depth = 0
         self.pending = []
         self.sets = {}          # character set (constants / parameters) -> name of its definition
         self.preds = {}         # text of a byte test of a `while` scan -> name of its definition
@@ -590,8 +659,10 @@ class Compiler:
                 if pv[0] != "nat":
                     raise Refuse(f"{self.fn}: String::compare on an unchecked pointer")
                 z = self.read(env, out, "cstr", pv)
-                t = f"strncmp0 {z} {blist(args[1][1])} {args[2][1]}"
+                t = f"strncmp0 {z} {blist(args[1][1][:args[2][1]])} {args[2][1]}"
                 return ("bool", t if op == "==" else f"!({t})")
+            if op == "&&" and norm_lit(e) != e:
+                return self.ev(norm_lit(e), env, out)
             if op in ("&&", "||"):
                 n0 = len(out)
                 a = self.as_bool(self.ev(e[2], env, out))
@@ -639,6 +710,12 @@ class Compiler:
                     raise Refuse(f"{self.fn}: comparison of token types")
                 raise Refuse(f"{self.fn}: comparison '{op}' on {a[0]}, {b[0]}")
             raise Refuse(f"{self.fn}: operator '{op}'")
+        if k == "litat":
+            pv = self.ev(e[1], env, out)
+            if pv[0] != "nat":
+                raise Refuse(f"{self.fn}: byte tests on an unchecked pointer")
+            z = self.read(env, out, "cstr", nat(pv[1], pv[2] + e[2]))
+            return ("bool", f"strncmp0 {z} {blist(e[3])} {len(e[3])}")
         if k == "call":
             return self.call(e, env, out)
         raise Refuse(f"{self.fn}: expression '{k}'")
@@ -720,19 +797,71 @@ class Compiler:
         out.append(f"(mem t {paren(rnat(pv))} {paren(rnat(nv))}).bind fun {x} =>")
         return ("bytes", x)
 
+    # ---- private helper functions without parameters are executed in place
+    def helper_call(self, e):
+        if e[0] == "call" and not e[2]:
+            f = e[1]
+            nm = f[1] if f[0] == "id" else (f[2] if f[0] == "mem" and f[1] == ("id", "this") else None)
+            if nm and nm in HELPERS and nm != self.fn:
+                return nm
+        return None
+
+    def inline(self, name, env, kret, lvl):
+        if self.depth > 3:
+            raise Refuse(f"{self.fn}: helper calls nested too deeply (recursion?)")
+        rett, text = HELPERS[name]
+        body = parse_body(text, name)
+        members = set(self.initial_env().v)
+        saved = {n: v for n, v in env.v.items() if n not in members}
+        for n in saved:
+            del env.v[n]
+        scope0 = env.scope
+
+        def leave(e2, r):
+            if r is not None and r not in (("id", "true"), ("id", "false")):
+                raise Refuse(f"{self.fn}: helper '{name}' returns an expression")
+            if (r is None) != (rett == "void"):
+                raise Refuse(f"{self.fn}: helper '{name}': return does not fit its type")
+            for n in list(e2.v):
+                if n not in members:
+                    del e2.v[n]
+            if e2.scope == scope0:
+                e2.v.update(saved)           # (inside another loop body the caller's locals are out of reach)
+            return kret(e2, r)
+        self.depth += 1
+        try:
+            if rett == "void":
+                return self.comp(body, env, {"fall": lambda e2: leave(e2, None), "ret": leave, "level": lvl})
+
+            def nofall(e2):
+                raise Refuse(f"{self.fn}: helper '{name}' can fall off its end")
+            return self.comp(body, env, {"fall": nofall, "ret": leave, "level": lvl})
+        finally:
+            self.depth -= 1
+
     # ---- conditions with short circuit
-    def cond(self, e, env, kT, kF):
+    def cond(self, e, env, kT, kF, lvl=-1):
+        e = norm_lit(e)
         if e[0] == "un" and e[1] == "!":
-            return self.cond(e[2], env, kF, kT)
+            return self.cond(e[2], env, kF, kT, lvl)
         if e[0] == "bin" and e[1] == "&&":
-            return self.cond(e[2], env, lambda e1: self.cond(e[3], e1, kT, kF), kF)
+            return self.cond(e[2], env, lambda e1: self.cond(e[3], e1, kT, kF, lvl), kF, lvl)
         if e[0] == "bin" and e[1] == "||":
-            return self.cond(e[2], env, kT, lambda e1: self.cond(e[3], e1, kT, kF))
+            return self.cond(e[2], env, kT, lambda e1: self.cond(e[3], e1, kT, kF, lvl), lvl)
+        h = self.helper_call(e)
+        if h:
+            def done(e2, r):
+                if r == ("id", "true"):
+                    return kT(e2)
+                if r == ("id", "false"):
+                    return kF(e2)
+                raise Refuse(f"{self.fn}: helper '{h}' used as a condition returns something other than true / false")
+            return self.inline(h, env, done, lvl)
         if e[0] == "bin" and e[1] in ("==", "!=") and e[2] == ("num", 0) and e[3][0] == "id":
             e = ("bin", e[1], e[3], e[2])
         if e[0] == "bin" and e[1] in ("==", "!=") and e[3] == ("num", 0) and e[2][0] == "id" and \
                 env.v.get(e[2][1], ("",))[0] in ("ptr?", "nat"):
-            return self.cond(e[2], env, kT, kF) if e[1] == "!=" else self.cond(e[2], env, kF, kT)
+            return self.cond(e[2], env, kT, kF, lvl) if e[1] == "!=" else self.cond(e[2], env, kF, kT, lvl)
         out = []
         v = self.ev(e, env, out)
         if v[0] == "ptr?":
@@ -787,13 +916,16 @@ class Compiler:
                     raise Refuse(f"{self.fn}: local '{name}' of a type the translator does not know")
                 env.v[name] = v
             return "\n".join(out + [go(env)])
+        if k == "expr" and self.helper_call(s[1]):
+            return self.inline(self.helper_call(s[1]), env, lambda e2, r: go(e2), K.get("level", -1))
         if k == "expr":
             out = []
             self.ev(s[1], env, out)
             return "\n".join(out + [go(env)])
         if k == "if":
             _, c, th, el = s
-            return self.cond(c, env, lambda e1: self.comp(th, e1, dict(K, fall=go)), lambda e1: self.comp(el, e1, dict(K, fall=go)))
+            return self.cond(c, env, lambda e1: self.comp(th, e1, dict(K, fall=go)), lambda e1: self.comp(el, e1, dict(K, fall=go)),
+                             K.get("level", -1))
         if k == "switch":
             _, e, cases = s
             out = []
@@ -835,28 +967,14 @@ class Compiler:
             # struct locals (Position) live across the loop: passed field by field
             slocs = sorted(p for p in env.v if p.count(".") == 1 and p.split(".")[0] not in ("pos", "token") and env.v[p][0] == "nat")
             names = locs + slocs
-            self.pending.append((idx, s[1], names, rest, K))
+            lvl = K.get("level", -1) + 1
+            self.pending.append((idx, s[1], names, rest, K, lvl))
             vals = ", ".join(rnat(env.v[n]) for n in names)
-            return f".ok (.enter {self.state(env)} [{vals}])"
+            return f".ok (.enter {lvl} {self.state(env)} [{vals}])"
         if k == "while":
             return self.while_idiom(s, env, go)
         if k == "return":
-            e = s[1]
-            if e is None or e == ("id", "true"):
-                return f".ok (.ret {self.state(env)})"
-            if e[0] == "comma" and e[2] == ("id", "false") and e[1][0] == "call":
-                c = e[1]
-                nm = c[1][1] if c[1][0] == "id" else (c[1][2] if c[1][0] == "mem" and c[1][1] == ("id", "this") else None)
-                if nm == "syntaxError" and len(c[2]) == 2 and c[2][1][0] == "str":
-                    msg = bytes(c[2][1][1]).decode()
-                    if msg not in MSGS:
-                        raise Refuse(f"{self.fn}: error message {msg!r} has no message class in the model")
-                    p = self.path(c[2][0])
-                    if not self.is_struct(env, p):
-                        raise Refuse(f"{self.fn}: syntaxError at something that is not a Position")
-                    g = lambda f: rnat(env.v[f"{p}.{f}"])
-                    return f"Generated.syntaxError ⟨{g('line')}, {g('pos')}, {g('lineStart')}⟩ {MSGS[msg]}"
-            raise Refuse(f"{self.fn}: return statement the translator does not know")
+            return K["ret"](env, s[1])
         if k == "continue":
             if "cont" not in K:
                 raise Refuse(f"{self.fn}: continue outside a loop")
@@ -914,6 +1032,24 @@ class Compiler:
         return "\n".join(out + [go(env)])
 
     # ---- whole function
+    def top_return(self, env, e):
+        """`return` of the translated function itself"""
+        if e is None or e == ("id", "true"):
+            return f".ok (.ret {self.state(env)})"
+        if e[0] == "comma" and e[2] == ("id", "false") and e[1][0] == "call":
+            c = e[1]
+            nm = c[1][1] if c[1][0] == "id" else (c[1][2] if c[1][0] == "mem" and c[1][1] == ("id", "this") else None)
+            if nm == "syntaxError" and len(c[2]) == 2 and c[2][1][0] == "str":
+                msg = bytes(c[2][1][1]).decode()
+                if msg not in MSGS:
+                    raise Refuse(f"{self.fn}: error message {msg!r} has no message class in the model")
+                p = self.path(c[2][0])
+                if not self.is_struct(env, p):
+                    raise Refuse(f"{self.fn}: syntaxError at something that is not a Position")
+                g = lambda f: rnat(env.v[f"{p}.{f}"])
+                return f"Generated.syntaxError ⟨{g('line')}, {g('pos')}, {g('lineStart')}⟩ {MSGS[msg]}"
+        raise Refuse(f"{self.fn}: return statement the translator does not know")
+
     def function(self, stmts, leading_call=None):
         if leading_call:
             if not stmts or stmts[0] != ("expr", ("call", ("id", leading_call), [])):
@@ -921,22 +1057,21 @@ class Compiler:
             stmts = stmts[1:]
         end = lambda env: f".ok (.ret {self.state(env)})"
         env = self.initial_env()
-        self.defs.append((f"{self.fn}_entry", [], self.comp(stmts, env, {"fall": end})))
+        self.defs.append((f"{self.fn}_entry", [], self.comp(stmts, env, {"fall": end, "ret": self.top_return, "level": -1})))
         while self.pending:
-            idx, body, names, rest, K = self.pending.pop(0)
+            idx, body, names, rest, K, lvl = self.pending.pop(0)
             lp = [n.replace(".", "_") for n in names]
             env = self.initial_env()
+            self.scope += 1
+            env.scope = self.scope
             for n in names:
                 env.v[n] = nat("l_" + n.replace(".", "_"))
             env.consts = set(names)
-            KL = {"fall": lambda e: f".ok (.next {self.state(e)})", "cont": lambda e: f".ok (.next {self.state(e)})",
-                  "brk": lambda e: f".ok (.leave {self.state(e)})"}
+            nxt = (lambda l: lambda e: f".ok (.next {l} {self.state(e)})")(lvl)
+            # `break`: the statements behind the loop are compiled in place (their `continue` is the enclosing loop's)
+            KL = {"fall": nxt, "cont": nxt, "level": lvl, "ret": K["ret"],
+                  "brk": (lambda r, k: lambda e: self.comp(r, e, k))(rest, K)}
             self.defs.append((f"{self.fn}_loop{idx}", lp, self.comp(body, env, KL)))
-            env = self.initial_env()
-            for n in names:
-                env.v[n] = nat("l_" + n.replace(".", "_"))
-            env.consts = set(names)
-            self.defs.append((f"{self.fn}_after{idx}", lp, self.comp(rest, env, K)))
         return self.defs
 
 
@@ -1041,6 +1176,9 @@ def run(repo):
         return False, f"cannot read sources: {e}"
     try:
         srcc = src
+        HELPERS.clear()
+        for m in re.finditer(r"\b(void|bool)\s+Xml::Private::(\w+)\(\)\s*\{", strip_comments(srcc)):
+            HELPERS[m.group(2)] = (m.group(1), function_body(srcc, r"\b" + m.group(1) + r"\s+Xml::Private::" + m.group(2) + r"\(\)", m.group(2)))
         parts = []
         m = re.search(r"static\s+bool\s+isSpace\(char\s+(\w+)\)\s*\{(.*?)\}", hpp, re.S)
         if not m:
